@@ -1431,6 +1431,9 @@ def native_getattr(it, obj, name):
         raise it.undecided("dtype attribute %r" % name)
     if isinstance(obj, AbstractSparse):
         return getattr(obj, name)
+    if isinstance(obj, int) and not isinstance(obj, bool) and name in ("ravel", "reshape", "item", "astype", "shape", "ndim", "size", "flatten"):
+        # numpy integer scalars (converted to python ints by the sanitiser) still answer the array protocol
+        return getattr(np.int64(obj), name) if name not in ("astype",) else (lambda *a, **k: obj)
     if isinstance(obj, (str, list, tuple, dict, set, frozenset, range, slice, int, bool)) or obj is None:
         try:
             return getattr(obj, name)
@@ -1531,6 +1534,11 @@ class AbstractSparse:
         c = min(shape[1], self.dense.shape[1])
         new[:r, :c] = self.dense[:r, :c]
         self.dense = new
+
+    def reshape(self, *shape, **kw):
+        if len(shape) == 1 and isinstance(shape[0], (tuple, list)):
+            shape = tuple(shape[0])
+        return AbstractSparse(self.dense.reshape(*[int(P(x)) for x in shape]).copy(), self.format)
 
     def eliminate_zeros(self):
         return None
